@@ -112,6 +112,10 @@ class Ctx:
             depth = 4
         return thorough * depth
 
+    def every(self, spec: Any, k: int) -> bool:
+        """Deterministic 1-in-k selection keyed by the case itself (always true under --replay)."""
+        return getattr(self, "replaying", False) or int(digest(spec), 16) % k == 0
+
     def case(self, cls: Any, spec: Any, nontrivial: bool = True) -> None:
         self.evaluations += 1
         cls_s = cls if isinstance(cls, str) else "|".join(str(c) for c in cls)
